@@ -55,6 +55,37 @@ fn c16_sprite(rng: &mut Rng, i: u64) -> (Sprite, asemon::program::PaletteProgram
     (sp, pp)
 }
 
+/// A sprite of identical shape whose tileset (else cel) bytes differ in a way that keeps byte sum and Adler-32 equal:
+/// +1, -2, +1 on three neighbouring bytes (found where the values allow it). None when no such place exists.
+fn near_duplicate(sp: &Sprite) -> Option<Sprite> {
+    fn tweak(bytes: &mut [u8], from: usize) -> bool {
+        if bytes.len() < from + 3 {
+            return false;
+        }
+        for i in from..bytes.len() - 2 {
+            if bytes[i] < 255 && bytes[i + 1] >= 2 && bytes[i + 2] < 255 {
+                bytes[i] += 1;
+                bytes[i + 1] -= 2;
+                bytes[i + 2] += 1;
+                return true;
+            }
+        }
+        false
+    }
+    if sp.fmt == Fmt::Indexed {
+        return None; // pixel values are palette indices: a changed index may not exist
+    }
+    let mut sp2 = sp.clone();
+    for ts in sp2.tilesets.iter_mut() {
+        let area = ts.tw as usize * ts.th as usize * sp.fmt.bpp();
+        if tweak(&mut ts.pixels, area) {
+            return Some(sp2);
+        }
+    }
+    // (cel pixels are not used: a changed pixel may lie outside the canvas and be invisible to every probe)
+    None
+}
+
 /// One sprite: sequential reference, repetitions in shuffled order, threads on a shared reference, fresh loads.
 fn check_sprite(ctx: &Ctx, i: u64, overlap_pairs: &Mutex<HashSet<(String, String)>>) -> CaseResult {
     let mut rng = Rng::derive(ctx.seed, "C16", i);
@@ -177,6 +208,122 @@ fn check_sprite(ctx: &Ctx, i: u64, overlap_pairs: &Mutex<HashSet<(String, String
         }
     }
     res.count("fresh_loads", loads as u64);
+    // (c2) calls that are DOCUMENTED to panic (arguments out of range), caught: the value is immutable, so every probe
+    // must still return what it returned before
+    {
+        let quiet = asemon::common::guarded(|| {
+            let _ = std::panic::catch_unwind(std::panic::AssertUnwindSafe(|| ase.frame(ase.num_frames())));
+            let _ = std::panic::catch_unwind(std::panic::AssertUnwindSafe(|| ase.layer(ase.num_layers())));
+            let _ = std::panic::catch_unwind(std::panic::AssertUnwindSafe(|| ase.cel(ase.num_frames(), 0)));
+            for ts in ase.tilesets().iter() {
+                let _ = std::panic::catch_unwind(std::panic::AssertUnwindSafe(|| ts.tile_image(ts.tile_count())));
+                let _ = std::panic::catch_unwind(std::panic::AssertUnwindSafe(|| ts.tile_image(u32::MAX)));
+            }
+        });
+        let _ = quiet;
+        for (k, p) in probes.iter().enumerate() {
+            let r = asemon::common::guarded(|| p.eval(&ase));
+            res.leaves += 1;
+            match r {
+                Ok(v) if v == reference[k] => {}
+                Ok(_) => {
+                    res.violations.push(Violation::new(format!("nondeterministic|after-caught-panic|{}", normalise_digits(&p.key())), format!("probe {} returns a different result after out-of-range calls (documented panics) were made and caught", p.key())).with_input(&bytes));
+                    return res;
+                }
+                Err(pi) => {
+                    res.violations.push(Violation::new(format!("nondeterministic|after-caught-panic|{}|panics", normalise_digits(&p.key())), format!("probe {} panics ({}) after out-of-range calls (documented panics) were made and caught; it returned normally before", p.key(), pi.message)).with_input(&bytes));
+                    return res;
+                }
+            }
+        }
+        res.count("probes_after_caught_panics", probes.len() as u64);
+    }
+    // (c3) history: loads that FAIL (cut zlib streams, truncated files, corrupted bytes) on this thread, then the
+    // original bytes again - a load depends on its bytes only, not on what was loaded before
+    {
+        let mut failed = 0u64;
+        for k in 0..6u64 {
+            let mut bad = bytes.clone();
+            match k % 3 {
+                0 => bad.truncate(bad.len() * (40 + 10 * k as usize) / 100),
+                1 => {
+                    // corrupt the tail of the file (cel payloads / zlib streams live there)
+                    let n = bad.len();
+                    for j in 0..(n / 8).max(1) {
+                        let p = n - 1 - (j * 7 + k as usize) % (n / 2).max(1);
+                        bad[p] ^= 0x5a;
+                    }
+                }
+                _ => {
+                    let p = 128 + (rng.usize_below(bad.len().saturating_sub(129).max(1)));
+                    let p = p.min(bad.len() - 1);
+                    bad[p] = bad[p].wrapping_add(1 + k as u8);
+                }
+            }
+            if asemon::common::guarded(|| load(&bad).is_err()).unwrap_or(true) {
+                failed += 1;
+            }
+        }
+        res.count("failed_loads_before_reload", failed);
+        match load(&bytes) {
+            Err(e) => {
+                res.violations.push(Violation::new(format!("nondeterministic|reload-after-failed-loads|{}", err_sig(&e)), format!("after {} failing loads on the same thread the original bytes no longer load: {}", failed, e)).with_input(&bytes));
+                return res;
+            }
+            Ok(other) => {
+                for (k, p) in probes.iter().enumerate() {
+                    if p.cross_load() && p.eval(&other) != reference[k] {
+                        res.violations.push(Violation::new(format!("nondeterministic|reload-after-failed-loads|{}", normalise_digits(&p.key())), format!("probe {} differs on a load of the same bytes made after {} failing loads on the same thread", p.key(), failed)).with_input(&bytes));
+                        return res;
+                    }
+                    res.leaves += 1;
+                }
+            }
+        }
+    }
+    // (c4) coexistence: a near-duplicate sprite (same shapes; tileset / cel bytes changed so that simple checksums -
+    // byte sum, xor of swapped pairs, Adler-32 - stay the same) is alive while the original is loaded and probed again,
+    // and the near-duplicate itself must show ITS pixels while the original is alive
+    if let Some(sp2) = near_duplicate(&sp) {
+        let bytes2 = encode(&compile_with(&sp2, &mut Rng::derive(ctx.seed, "C16", i), &Variation::none(), &pp)).0;
+        if let Ok(twin) = load(&bytes2) {
+            let tp = probes_for(&twin);
+            let tref: Vec<u64> = tp.iter().map(|p| p.eval(&twin)).collect();
+            // a fresh load of the original while the twin is alive
+            if let Ok(again) = load(&bytes) {
+                for (k, p) in probes.iter().enumerate() {
+                    if p.cross_load() && p.eval(&again) != reference[k] {
+                        res.violations.push(Violation::new(format!("nondeterministic|reload-next-to-near-duplicate|{}", normalise_digits(&p.key())), format!("probe {} differs on a load made while a sprite of identical shape and checksum-equal pixel data is alive", p.key())).with_input(&bytes));
+                        return res;
+                    }
+                    res.leaves += 1;
+                }
+            }
+            drop(twin);
+            res.count("near_duplicates_probed", 1);
+            let tref_next_to_original = tref;
+            // a second load of the twin (on a thread of its own) must observe the same as the first ...
+            let second = {
+                let b2 = bytes2.clone();
+                std::thread::spawn(move || load(&b2).ok().map(|t| probes_for(&t).iter().map(|p| p.eval(&t)).collect::<Vec<u64>>())).join().ok().flatten()
+            };
+            if let Some(a) = second {
+                // ... and the twin's tileset pixels differ from the original's, so its observations cannot all be equal
+                // to the original's
+                let cross: Vec<bool> = probes.iter().map(|p| p.cross_load()).collect();
+                let eq_twins = a.len() == tref_next_to_original.len() && a.iter().zip(tref_next_to_original.iter()).zip(cross.iter().chain(std::iter::repeat(&true))).all(|((x, y), c)| !*c || x == y);
+                if !eq_twins {
+                    res.violations.push(Violation::new("nondeterministic|near-duplicate-reload", "two loads of the near-duplicate sprite observe different results".to_string()).with_input(&bytes2));
+                    return res;
+                }
+                let same_as_original = a.len() == reference.len() && a.iter().zip(reference.iter()).zip(probes.iter()).all(|((x, y), p)| !p.cross_load() || x == y);
+                if same_as_original {
+                    res.violations.push(Violation::new("nondeterministic|near-duplicate-shows-the-other-sprite", "a sprite whose pixel data differs from another live sprite's (same shapes, equal simple checksums) is observed with exactly the other sprite's results".to_string()).with_input(&bytes2));
+                    return res;
+                }
+            }
+        }
+    }
     if i == 0 {
         res.sample = Some(json!({"case": i, "model": sprite_summary(&sp), "probes": probes.iter().take(10).map(|p| p.key()).collect::<Vec<_>>(), "threads": nthreads}));
     }
